@@ -47,7 +47,7 @@ WORKERS = {"quick": 16, "thorough": 16}
 WATCHDOG = {"quick": 600, "thorough": 3000}
 
 KINDS = ["select", "select", "setop", "insert", "update", "delete", "create", "drop"]
-SPECIAL_KINDS = {"update-join", "for-update-of", "update-from", "dialect-sensitive-constants", "dialect-sensitive-set", "sign-twins", "mutable-builder", "mutable-builder-setop", "unnamed-source-by-replace", "long-names", "aliased-insert-target", "cte-name-crosstalk"}
+SPECIAL_KINDS = {"update-join", "for-update-of", "update-from", "dialect-sensitive-constants", "dialect-sensitive-set", "sign-twins", "mutable-builder", "mutable-builder-setop", "unnamed-source-by-replace", "long-names", "aliased-insert-target", "cte-name-crosstalk", "load-file-names"}
 
 
 def special_programs(d):
@@ -91,6 +91,12 @@ def special_programs(d):
     s3 = p.call(p.call(p.call(p.call(Cls(d), "with_", body1, "n1"), "with_", body3, "n2"), "from_", p.new("AliasedQuery", "n2")), "select", "id")
     out.append((p.prog(dialect=d, kind="cte-name-crosstalk"), s1.i))
     out.append((p.prog(dialect=d, kind="cte-name-crosstalk"), s3.i))
+    if d == "MySQLQuery":
+        # LOAD DATA with file names that a shell would expand: the statement holds the name as given, whatever HOME / cwd are
+        for fn_ in ("~/data/f.csv", "~root/f.csv", "$HOME/f.csv", "rel/dir/f.csv"):
+            p = P()
+            ld = p.call(p.call(Cls(d), "load", fn_), "into", p.new("Table", "t1"))
+            out.append((p.prog(dialect=d, kind="load-file-names"), ld.i))
     # an aliased INSERT target with a column list, a conflict target and assignments (every clause that writes bare column names)
     p = P()
     ta = p.new("Table", "accounts", alias="a")
@@ -296,7 +302,7 @@ class ambient:
     the property does not cover a caller who reconfigures the interpreter's number formatting between two renders.)"""
 
     def __init__(self, rnd):
-        self.how = rnd.choice(["decimal-prec-2", "decimal-prec-6-round-up", "tz-kiritimati", "decimal-prec-2+tz"])
+        self.how = rnd.choice(["decimal-prec-2", "decimal-prec-6-round-up", "tz-kiritimati", "decimal-prec-2+tz", "home-elsewhere", "home-elsewhere+cwd"])
 
     def __enter__(self):
         import decimal as _d
@@ -318,6 +324,12 @@ class ambient:
             self.tz = _os.environ.get("TZ")
             _os.environ["TZ"] = "Pacific/Kiritimati"
             _t.tzset()
+        if "home" in self.how:
+            self.home = (_os.environ.get("HOME"), _os.environ.get("USERPROFILE"), _os.getcwd())
+            _os.environ["HOME"] = "/nonexistent/home/of/somebody"
+            _os.environ["USERPROFILE"] = "/nonexistent/profile"
+            if "cwd" in self.how:
+                _os.chdir("/")
         return self
 
     def __exit__(self, *a):
@@ -325,6 +337,13 @@ class ambient:
         import time as _t
         if self.lc is not None:
             self.lc.__exit__(*a)
+        if "home" in self.how:
+            for k_, v_ in zip(("HOME", "USERPROFILE"), self.home[:2]):
+                if v_ is None:
+                    _os.environ.pop(k_, None)
+                else:
+                    _os.environ[k_] = v_
+            _os.chdir(self.home[2])
         if "tz" in self.how:
             if self.tz is None:
                 _os.environ.pop("TZ", None)
